@@ -12,21 +12,50 @@ namespace Txn
 
 variable {α : Type}
 
-/-- C12.6 — the log of an outermost close: first the `pre_eot` closures, then the `pre_post`
-    closures (those queued before and those pushed by the propagation), then `rest` = the traces of
-    the `post` closures (queued before, then pushed by the propagation) one after the other; in
-    particular the `post` queue occurs in `rest` in FIFO order (as a sublist). -/
+/-- C12.6 — the log of an outermost close, for every propagation `upd`: first the `pre_eot`
+    closures (`preEotPart`: the queue drained until it is empty — closures pushed onto it by the
+    running ones included —, then the `pre_eot` closures pushed by the propagation, drained the same
+    way), then the `pre_post` closures (`prePostPart`: those queued before, those pushed by the
+    drains and by the propagation), then `rest` = the traces of the `post` closures (`postPart`:
+    queued before, pushed by the drains and by the propagation) one after the other; in particular
+    the `post` queue occurs in `rest` in FIFO order (as a sublist). -/
 theorem log_of_close (q : α → Queue) (body : α → List α) (rank : α → Nat)
     (hbody : ∀ a, ∀ b ∈ body a, rank b < rank a) (fuel : Nat) (upd : List α) (c : Ctx α)
-    (hd : c.depth = 1) (hupd : ∀ a ∈ upd, q a ≠ .preEot)
+    (hd : c.depth = 1)
+    (hfuelPre : ∀ a ∈ c.preEot ++ onQ q .preEot upd, rank a < fuel)
     (hfuel : ∀ a ∈ c.post ++ onQ q .post upd, rank a < fuel) :
     ∃ rest, (leave q body upd (fuel + 1) c).log
-        = c.log ++ c.preEot ++ (c.prePost ++ onQ q .prePost upd) ++ rest ∧
+        = c.log ++ preEotPart q body upd fuel c ++ prePostPart q body upd fuel c ++ rest ∧
+      rest = (postPart q body upd fuel c).flatMap (trace q body fuel) ∧
+      (postPart q body upd fuel c).Sublist rest := by
+  refine ⟨_, ?_, rfl, sublist_flatMap_trace q body fuel _⟩
+  rw [leave_closed q body rank hbody fuel upd c hd hfuelPre hfuel]
+  rfl
+
+/-- the three parts contain, in order, what was queued before the close and what the propagation
+    pushed: `c.preEot ++ onQ q .preEot upd`, `c.prePost ++ onQ q .prePost upd`,
+    `c.post ++ onQ q .post upd` -/
+theorem close_parts_contain_queues (q : α → Queue) (body : α → List α) (fuel : Nat) (upd : List α)
+    (c : Ctx α) :
+    (c.preEot ++ onQ q .preEot upd).Sublist (preEotPart q body upd fuel c) ∧
+    (c.prePost ++ onQ q .prePost upd).Sublist (prePostPart q body upd fuel c) ∧
+    (c.post ++ onQ q .post upd).Sublist (postPart q body upd fuel c) :=
+  ⟨sublist_preEotPart q body upd fuel c, sublist_prePostPart q body upd fuel c,
+    sublist_postPart q body upd fuel c⟩
+
+/-- C12.6 when the `pre_eot` closures push nothing: the three parts are exactly the queues; the
+    `pre_eot` closures pushed by the propagation run after the queued ones, before `pre_post` -/
+theorem log_of_close_inert (q : α → Queue) (body : α → List α) (rank : α → Nat)
+    (hbody : ∀ a, ∀ b ∈ body a, rank b < rank a) (fuel : Nat) (upd : List α) (c : Ctx α)
+    (hd : c.depth = 1) (hpre : ∀ a, q a = .preEot → body a = [])
+    (hfuelPre : ∀ a ∈ c.preEot ++ onQ q .preEot upd, rank a < fuel)
+    (hfuel : ∀ a ∈ c.post ++ onQ q .post upd, rank a < fuel) :
+    ∃ rest, (leave q body upd (fuel + 1) c).log
+        = c.log ++ (c.preEot ++ onQ q .preEot upd) ++ (c.prePost ++ onQ q .prePost upd) ++ rest ∧
       rest = (c.post ++ onQ q .post upd).flatMap (trace q body fuel) ∧
       (c.post ++ onQ q .post upd).Sublist rest := by
   refine ⟨_, ?_, rfl, sublist_flatMap_trace q body fuel _⟩
-  rw [leave_closed q body rank hbody fuel upd c hd (onQ_eq_nil_of_forall_ne hupd) hfuel]
-  rfl
+  rw [leave_closed q body rank hbody fuel upd c hd hfuelPre hfuel, closed_inert q body hpre]
 
 example := log_of_close Act.queue exBody exRank exBody_wf 2 exUpd exCtx rfl (by decide) (by decide)
 
@@ -34,27 +63,52 @@ example : (leave Act.queue exBody exUpd 3 exCtx).log
     = [] ++ [.catchUpHold 3] ++ ([.commitHold 7] ++ [.clearFiring 0, .onceDetach 4])
       ++ [.deferredSend 1 5, .clearFiring 1, .commitHold 2, .userPost 9] := by decide
 
-/-- C12.6, simple form — when the bodies of the queued post closures push no further post closure
-    (and the `post` queue holds post closures only), `rest` is each post closure followed by the
-    `pre_eot` and `pre_post` closures of its nested transaction, and `rest` filtered to the post
-    closures is exactly the `post` queue: each ran once, in FIFO order. -/
+/-- a `pre_eot` closure pushed by the propagation (`catchUpHold 7` in `exUpdPre`) is logged after the
+    queued `pre_eot` closures and before the `pre_post` closures -/
+example := log_of_close_inert Act.queue exBody exRank exBody_wf 2 exUpdPre exCtx rfl
+  (by intro a h; unfold exBody; split <;> simp_all [Act.queue]) (by decide) (by decide)
+
+example : (leave Act.queue exBody exUpdPre 3 exCtx).log
+    = [] ++ [.catchUpHold 3, .catchUpHold 7] ++ ([.commitHold 7] ++ [.clearFiring 0, .onceDetach 4])
+      ++ [.deferredSend 1 5, .clearFiring 1, .commitHold 2, .userPost 9] := by decide
+
+/-- `pre_eot` closures that push: `switchInit 2` pushes `switchInit 3` (run in the next round of the
+    drain) and a `pre_post` closure; `switchInit 3` pushes a post closure and a `pre_post` closure -/
+example := log_of_close Act.queue exBodyPre exRankPre exBodyPre_wf 4 exUpdPre
+  { exCtx with preEot := [.switchInit 2] } rfl (by decide) (by decide)
+
+example : (leave Act.queue exBodyPre exUpdPre 5 { exCtx with preEot := [.switchInit 2] }).log
+    = [] ++ [.switchInit 2, .switchInit 3, .catchUpHold 7]
+      ++ ([.commitHold 7] ++ [.resetVisited 2, .resetVisited 3, .clearFiring 0, .onceDetach 4])
+      ++ [.deferredSend 1 5, .clearFiring 1, .commitHold 2, .userPost 6, .userPost 9]
+    ∧ quiescent (leave Act.queue exBodyPre exUpdPre 5 { exCtx with preEot := [.switchInit 2] }) := by
+  decide
+
+/-- C12.6, simple form — when the nested transactions of the queued post closures queue no further
+    post closure (neither the closure nor the `pre_eot` closures run at its close push one; and the
+    `post` queue holds post closures only), `rest` is each post closure followed by the `pre_eot`
+    and `pre_post` closures of its nested transaction, and `rest` filtered to the post closures is
+    exactly the `post` queue: each ran once, in FIFO order. -/
 theorem log_of_close_flat (q : α → Queue) (body : α → List α) (rank : α → Nat)
     (hbody : ∀ a, ∀ b ∈ body a, rank b < rank a) (fuel : Nat) (upd : List α) (c : Ctx α)
-    (hd : c.depth = 1) (hupd : ∀ a ∈ upd, q a ≠ .preEot)
+    (hd : c.depth = 1)
+    (hfuelPre : ∀ a ∈ c.preEot ++ onQ q .preEot upd, rank a < fuel)
     (hfuel : ∀ a ∈ c.post ++ onQ q .post upd, rank a < fuel)
     (htyped : ∀ a ∈ c.post, q a = .post)
-    (hflat : ∀ a ∈ c.post ++ onQ q .post upd, ∀ b ∈ body a, q b ≠ .post) :
+    (hflat : ∀ a ∈ postPart q body upd fuel c, ∀ b ∈ nested q body (fuel - 1) a, q b ≠ .post) :
     ∃ rest, (leave q body upd (fuel + 1) c).log
-        = c.log ++ c.preEot ++ (c.prePost ++ onQ q .prePost upd) ++ rest ∧
-      rest = (c.post ++ onQ q .post upd).flatMap
-        (fun a => a :: (onQ q .preEot (body a) ++ onQ q .prePost (body a))) ∧
-      onQ q .post rest = c.post ++ onQ q .post upd := by
-  obtain ⟨rest, h1, h2, _⟩ := log_of_close q body rank hbody fuel upd c hd hupd hfuel
-  have hpos : c.post ++ onQ q .post upd ≠ [] → 0 < fuel := by
+        = c.log ++ preEotPart q body upd fuel c ++ prePostPart q body upd fuel c ++ rest ∧
+      rest = (postPart q body upd fuel c).flatMap
+        (fun a => a :: (preLog q body (fuel - 1) (onQ q .preEot (body a))
+                          ++ onQ q .prePost (nested q body (fuel - 1) a))) ∧
+      onQ q .post rest = postPart q body upd fuel c := by
+  obtain ⟨rest, h1, h2, _⟩ := log_of_close q body rank hbody fuel upd c hd hfuelPre hfuel
+  have hpo := rank_postPart_lt q body rank hbody fuel upd c hfuelPre hfuel
+  have hpos : postPart q body upd fuel c ≠ [] → 0 < fuel := by
     intro hne
-    cases h : c.post ++ onQ q .post upd with
+    cases h : postPart q body upd fuel c with
     | nil => exact absurd h hne
-    | cons a l => have := hfuel a (by rw [h]; exact List.mem_cons_self); omega
+    | cons a l => have := hpo a (by rw [h]; exact List.mem_cons_self); omega
   have h3 := flatMap_trace_flat q body fuel _ hpos
     (fun a ha => onQ_eq_nil_of_forall_ne (hflat a ha))
   refine ⟨rest, h1, h2.trans h3, ?_⟩
@@ -72,17 +126,20 @@ example : onQ Act.queue .post ((leave Act.queue exBody exUpd 3 exCtx).log)
     = [.deferredSend 1 5, .userPost 9] := by decide
 
 /-- C12.7, generic form — in the log of an outermost close every closure of the `pre_post` queue
-    (queued before or pushed by the propagation) precedes every closure of the `post` queue. -/
+    (queued before, pushed by the `pre_eot` drains or pushed by the propagation) precedes every
+    closure of the `post` queue; by `close_parts_contain_queues` this covers every
+    `x ∈ c.prePost ++ onQ q .prePost upd` and `y ∈ c.post ++ onQ q .post upd`. -/
 theorem prePost_before_post (q : α → Queue) (body : α → List α) (rank : α → Nat)
     (hbody : ∀ a, ∀ b ∈ body a, rank b < rank a) (fuel : Nat) (upd : List α) (c : Ctx α)
-    (hd : c.depth = 1) (hupd : ∀ a ∈ upd, q a ≠ .preEot)
+    (hd : c.depth = 1)
+    (hfuelPre : ∀ a ∈ c.preEot ++ onQ q .preEot upd, rank a < fuel)
     (hfuel : ∀ a ∈ c.post ++ onQ q .post upd, rank a < fuel)
-    (x y : α) (hx : x ∈ c.prePost ++ onQ q .prePost upd) (hy : y ∈ c.post ++ onQ q .post upd) :
+    (x y : α) (hx : x ∈ prePostPart q body upd fuel c) (hy : y ∈ postPart q body upd fuel c) :
     ∃ l₁ l₂ l₃, (leave q body upd (fuel + 1) c).log = c.log ++ l₁ ++ x :: l₂ ++ y :: l₃ := by
-  obtain ⟨rest, h1, _, h3⟩ := log_of_close q body rank hbody fuel upd c hd hupd hfuel
+  obtain ⟨rest, h1, _, h3⟩ := log_of_close q body rank hbody fuel upd c hd hfuelPre hfuel
   obtain ⟨p₁, p₂, hp⟩ := List.append_of_mem hx
   obtain ⟨r₁, r₂, hr⟩ := List.append_of_mem (h3.subset hy)
-  refine ⟨c.preEot ++ p₁, p₂ ++ r₁, r₂, ?_⟩
+  refine ⟨preEotPart q body upd fuel c ++ p₁, p₂ ++ r₁, r₂, ?_⟩
   rw [h1, hp, hr]
   simp [List.append_assoc]
 
@@ -103,61 +160,79 @@ theorem Act.queue_of_isDeferred {x : Act} (h : x.isDeferred = true) : x.queue = 
   cases x <;> first | rfl | simp [Act.isDeferred] at h
 
 /-- C12.7 — with the library's closure vocabulary: a transaction on a quiescent context that pushes
-    `acts` and whose propagation pushes `upd` logs `pre ++ pp ++ rest` where every
-    `commitHold` / `onceDetach` / `clearFiring` queued in this transaction (before or during the
-    propagation) is in `pp`, every `deferredSend` / `userPost` is in `rest`, and no deferred closure
-    runs in `pre ++ pp`: deferred work sees committed holds, detached `once`s and cleared firing
-    slots.  (This is why holds commit, `once` detaches and `_send` clears in `pre_post`.) -/
+    `acts` and whose propagation pushes `upd` (whatever it pushes) logs `pre ++ pp ++ rest` where
+    every `commitHold` / `onceDetach` / `clearFiring` queued in this transaction (before or during
+    the propagation) is in `pp`, every `deferredSend` / `userPost` is in `rest`, and no deferred
+    closure runs in `pre ++ pp`: deferred work sees committed holds, detached `once`s and cleared
+    firing slots.  (This is why holds commit, `once` detaches and `_send` clears in `pre_post`.) -/
 theorem commit_before_deferred (body : Act → List Act) (rank : Act → Nat)
     (hbody : ∀ a, ∀ b ∈ body a, rank b < rank a) (fuel : Nat) (upd acts : List Act) (c : Ctx Act)
-    (hc : quiescent c) (hupd : ∀ a ∈ upd, a.queue ≠ .preEot)
-    (hfuel : ∀ a ∈ acts ++ upd, a.queue = .post → rank a < fuel) :
+    (hc : quiescent c)
+    (hfuel : ∀ a ∈ acts ++ upd, a.queue ≠ .prePost → rank a < fuel) :
     ∃ pre pp rest, (transaction Act.queue body upd acts (fuel + 1) c).log
         = c.log ++ pre ++ pp ++ rest ∧
       (∀ x ∈ acts ++ upd, x.isCommit = true → x ∈ pp) ∧
       (∀ y ∈ acts ++ upd, y.isDeferred = true → y ∈ rest) ∧
       (∀ z ∈ pre ++ pp, z.isDeferred = false) := by
   obtain ⟨h0, h1, h2, h3, h4⟩ := hc
+  have hlog : (acts.foldl (push Act.queue) (enter c)).log = c.log := by rw [foldl_push]; rfl
+  have hdep : (acts.foldl (push Act.queue) (enter c)).depth = 1 := by
+    rw [foldl_push]; simp [enter, h0]
+  have hpreq : (acts.foldl (push Act.queue) (enter c)).preEot = onQ Act.queue .preEot acts := by
+    rw [foldl_push]; simp [enter, h1]
+  have hprepost : (acts.foldl (push Act.queue) (enter c)).prePost
+      = onQ Act.queue .prePost acts := by
+    rw [foldl_push]; simp [enter, h2]
   have hpost : (acts.foldl (push Act.queue) (enter c)).post = onQ Act.queue .post acts := by
     rw [foldl_push]; simp [enter, h3]
-  have hf : ∀ a ∈ (acts.foldl (push Act.queue) (enter c)).post ++ onQ Act.queue .post upd,
-      rank a < fuel := by
+  unfold transaction
+  generalize acts.foldl (push Act.queue) (enter c) = d at hlog hdep hpreq hprepost hpost ⊢
+  have hfp : ∀ a ∈ d.preEot ++ onQ Act.queue .preEot upd, rank a < fuel := by
+    rw [hpreq]; intro a ha
+    rcases List.mem_append.mp ha with ha | ha
+    · exact hfuel a (List.mem_append_left _ (mem_onQ.mp ha).1) (by rw [(mem_onQ.mp ha).2]; decide)
+    · exact hfuel a (List.mem_append_right _ (mem_onQ.mp ha).1) (by rw [(mem_onQ.mp ha).2]; decide)
+  have hf : ∀ a ∈ d.post ++ onQ Act.queue .post upd, rank a < fuel := by
     rw [hpost]; intro a ha
     rcases List.mem_append.mp ha with ha | ha
-    · exact hfuel a (List.mem_append_left _ (mem_onQ.mp ha).1) (mem_onQ.mp ha).2
-    · exact hfuel a (List.mem_append_right _ (mem_onQ.mp ha).1) (mem_onQ.mp ha).2
-  obtain ⟨rest, e1, _, e3⟩ := log_of_close Act.queue body rank hbody fuel upd
-    (acts.foldl (push Act.queue) (enter c)) (by rw [foldl_push]; simp [enter, h0]) hupd hf
-  refine ⟨onQ Act.queue .preEot acts, onQ Act.queue .prePost acts ++ onQ Act.queue .prePost upd,
+    · exact hfuel a (List.mem_append_left _ (mem_onQ.mp ha).1) (by rw [(mem_onQ.mp ha).2]; decide)
+    · exact hfuel a (List.mem_append_right _ (mem_onQ.mp ha).1) (by rw [(mem_onQ.mp ha).2]; decide)
+  obtain ⟨rest, e1, _, e3⟩ := log_of_close Act.queue body rank hbody fuel upd d hdep hfp hf
+  refine ⟨preEotPart Act.queue body upd fuel d, prePostPart Act.queue body upd fuel d,
     rest, ?_, ?_, ?_, ?_⟩
-  · rw [transaction, e1, foldl_push]; simp [enter, h1, h2]
+  · rw [e1, hlog]
   · intro x hx hxc
-    rw [← onQ_append]
+    apply (sublist_prePostPart Act.queue body upd fuel d).subset
+    rw [hprepost, ← onQ_append]
     exact mem_onQ.mpr ⟨hx, Act.queue_of_isCommit hxc⟩
   · intro y hy hyd
     apply e3.subset
+    apply (sublist_postPart Act.queue body upd fuel d).subset
     rw [hpost, ← onQ_append]
     exact mem_onQ.mpr ⟨hy, Act.queue_of_isDeferred hyd⟩
   · intro z hz
-    rw [← onQ_append] at hz
-    rcases List.mem_append.mp hz with hz | hz
-    · have := (mem_onQ.mp hz).2
-      cases z <;> first | rfl | simp [Act.queue] at this
-    · have := (mem_onQ.mp hz).2
-      cases z <;> first | rfl | simp [Act.queue] at this
+    have hzq : z.queue = .preEot ∨ z.queue = .prePost := by
+      rcases List.mem_append.mp hz with hz | hz
+      · rcases queue_of_mem_preEotPart Act.queue body upd fuel d z hz with h | h
+        · rw [hpreq] at h; exact Or.inl (mem_onQ.mp h).2
+        · exact Or.inl h
+      · rcases List.mem_append.mp hz with h | h
+        · rw [hprepost] at h; exact Or.inr (mem_onQ.mp h).2
+        · exact Or.inr (mem_onQ.mp h).2
+    cases z <;> first | rfl | simp [Act.queue] at hzq
 
 /-- C12.7, positions — every commit-like closure queued in the transaction occurs, in the segment of
     the log written by this transaction, before every deferred closure queued in it. -/
 theorem commit_precedes_deferred (body : Act → List Act) (rank : Act → Nat)
     (hbody : ∀ a, ∀ b ∈ body a, rank b < rank a) (fuel : Nat) (upd acts : List Act) (c : Ctx Act)
-    (hc : quiescent c) (hupd : ∀ a ∈ upd, a.queue ≠ .preEot)
-    (hfuel : ∀ a ∈ acts ++ upd, a.queue = .post → rank a < fuel)
+    (hc : quiescent c)
+    (hfuel : ∀ a ∈ acts ++ upd, a.queue ≠ .prePost → rank a < fuel)
     (x y : Act) (hx : x ∈ acts ++ upd) (hxc : x.isCommit = true)
     (hy : y ∈ acts ++ upd) (hyd : y.isDeferred = true) :
     ∃ l₁ l₂ l₃, (transaction Act.queue body upd acts (fuel + 1) c).log
         = c.log ++ l₁ ++ x :: l₂ ++ y :: l₃ := by
   obtain ⟨pre, pp, rest, e, hpp, hrest, _⟩ :=
-    commit_before_deferred body rank hbody fuel upd acts c hc hupd hfuel
+    commit_before_deferred body rank hbody fuel upd acts c hc hfuel
   obtain ⟨p₁, p₂, hp⟩ := List.append_of_mem (hpp x hx hxc)
   obtain ⟨r₁, r₂, hr⟩ := List.append_of_mem (hrest y hy hyd)
   refine ⟨pre ++ p₁, p₂ ++ r₁, r₂, ?_⟩
@@ -169,25 +244,37 @@ theorem commit_precedes_deferred (body : Act → List Act) (rank : Act → Nat)
 def exActs : List Act := [.deferredSend 1 5, .clearFiring 0, .userPost 9]
 
 example := commit_precedes_deferred exBody exRank exBody_wf 2 [.commitHold 7, .onceDetach 4] exActs
-  {} (by decide) (by decide) (by decide) (.commitHold 7) (.deferredSend 1 5) (by decide) rfl
+  {} (by decide) (by decide) (.commitHold 7) (.deferredSend 1 5) (by decide) rfl
   (by decide) rfl
+
+/-- the same when the propagation also pushes a `pre_eot` closure (a handler builds hold 7) -/
+example := commit_precedes_deferred exBody exRank exBody_wf 2
+  [.commitHold 7, .catchUpHold 7, .onceDetach 4] exActs
+  {} (by decide) (by decide) (.commitHold 7) (.deferredSend 1 5) (by decide) rfl
+  (by decide) rfl
+
+example : (transaction Act.queue exBody [.commitHold 7, .catchUpHold 7, .onceDetach 4] exActs 3 {}).log
+    = [.catchUpHold 7, .clearFiring 0, .commitHold 7, .onceDetach 4,
+       .deferredSend 1 5, .clearFiring 1, .commitHold 2, .userPost 9] := by decide
 
 example : (transaction Act.queue exBody [.commitHold 7, .onceDetach 4] exActs 3 {}).log
     = [.clearFiring 0, .commitHold 7, .onceDetach 4,
        .deferredSend 1 5, .clearFiring 1, .commitHold 2, .userPost 9] := by decide
 
 /-- C12.8 — each post closure gets a complete nested `end_of_transaction` of its own: when the
-    bodies of the queued post closures push no further post closure, `end_of_transaction` runs once
-    for the outer transaction and exactly once per post closure (in general: at least once per post
-    closure, `quiescent_after_close`), while `collect_cycles` is left to the outer one. -/
+    nested transactions of the queued post closures queue no further post closure,
+    `end_of_transaction` runs once for the outer transaction and exactly once per post closure (in
+    general: at least once per post closure, `quiescent_after_close`), while `collect_cycles` is
+    left to the outer one. -/
 theorem deferred_own_transaction (q : α → Queue) (body : α → List α) (rank : α → Nat)
     (hbody : ∀ a, ∀ b ∈ body a, rank b < rank a) (fuel : Nat) (upd : List α) (c : Ctx α)
-    (hd : c.depth = 1) (hupd : ∀ a ∈ upd, q a ≠ .preEot)
+    (hd : c.depth = 1)
+    (hfuelPre : ∀ a ∈ c.preEot ++ onQ q .preEot upd, rank a < fuel)
     (hfuel : ∀ a ∈ c.post ++ onQ q .post upd, rank a < fuel)
-    (hflat : ∀ a ∈ c.post ++ onQ q .post upd, ∀ b ∈ body a, q b ≠ .post) :
-    (leave q body upd (fuel + 1) c).eots = c.eots + 1 + (c.post ++ onQ q .post upd).length ∧
+    (hflat : ∀ a ∈ postPart q body upd fuel c, ∀ b ∈ nested q body (fuel - 1) a, q b ≠ .post) :
+    (leave q body upd (fuel + 1) c).eots = c.eots + 1 + (postPart q body upd fuel c).length ∧
     (leave q body upd (fuel + 1) c).collects = c.collects + (if c.allow = 0 then 1 else 0) := by
-  rw [leave_closed q body rank hbody fuel upd c hd (onQ_eq_nil_of_forall_ne hupd) hfuel]
+  rw [leave_closed q body rank hbody fuel upd c hd hfuelPre hfuel]
   constructor
   · simp only [closed]
     rw [sum_cnt_flat q body fuel _ (fun a ha => onQ_eq_nil_of_forall_ne (hflat a ha))]
@@ -198,24 +285,32 @@ example := deferred_own_transaction Act.queue exBody exRank exBody_wf 2 exUpd ex
 
 example : (leave Act.queue exBody exUpd 3 exCtx).eots = 0 + 1 + 2 := by decide
 
+example := deferred_own_transaction Act.queue exBody exRank exBody_wf 2 exUpdPre exCtx rfl
+  (by decide) (by decide) (by decide)
+
 /-- C12.8 (`deferred_fifo`) — the nested transaction of a post closure `a` is complete before the
-    next post closure of the outer queue runs: `a`, the `pre_eot` closures its body pushed, the
-    `pre_post` closures its body pushed, the nested transactions of the post closures its body
-    pushed, and only then the closures `p₂` queued after `a` (each of them, in order). -/
+    next post closure of the outer queue runs: `a`, the `pre_eot` closures its body pushed (drained
+    until the queue is empty), the `pre_post` closures pushed in its nested transaction, the nested
+    transactions of the post closures pushed in it, and only then the closures `p₂` queued after `a`
+    (each of them, in order). -/
 theorem deferred_fifo (q : α → Queue) (body : α → List α) (rank : α → Nat)
     (hbody : ∀ a, ∀ b ∈ body a, rank b < rank a) (fuel : Nat) (upd : List α) (c : Ctx α)
-    (hd : c.depth = 1) (hupd : ∀ a ∈ upd, q a ≠ .preEot)
+    (hd : c.depth = 1)
+    (hfuelPre : ∀ a ∈ c.preEot ++ onQ q .preEot upd, rank a < fuel)
     (hfuel : ∀ a ∈ c.post ++ onQ q .post upd, rank a < fuel)
-    (p₁ p₂ : List α) (a : α) (hsplit : c.post ++ onQ q .post upd = p₁ ++ a :: p₂) :
+    (p₁ p₂ : List α) (a : α) (hsplit : postPart q body upd fuel c = p₁ ++ a :: p₂) :
     ∃ before after, (leave q body upd (fuel + 1) c).log
-        = before ++ a :: (onQ q .preEot (body a) ++ onQ q .prePost (body a)
-            ++ (onQ q .post (body a)).flatMap (trace q body (fuel - 1))) ++ after ∧
-      before = c.log ++ c.preEot ++ (c.prePost ++ onQ q .prePost upd)
+        = before ++ a :: (preLog q body (fuel - 1) (onQ q .preEot (body a))
+            ++ onQ q .prePost (nested q body (fuel - 1) a)
+            ++ (onQ q .post (nested q body (fuel - 1) a)).flatMap (trace q body (fuel - 1)))
+          ++ after ∧
+      before = c.log ++ preEotPart q body upd fuel c ++ prePostPart q body upd fuel c
                 ++ p₁.flatMap (trace q body fuel) ∧
       after = p₂.flatMap (trace q body fuel) ∧ p₂.Sublist after := by
   refine ⟨_, _, ?_, rfl, rfl, sublist_flatMap_trace q body fuel p₂⟩
-  rw [leave_closed q body rank hbody fuel upd c hd (onQ_eq_nil_of_forall_ne hupd) hfuel]
-  have ha : rank a < fuel := hfuel a (by rw [hsplit]; simp)
+  rw [leave_closed q body rank hbody fuel upd c hd hfuelPre hfuel]
+  have ha : rank a < fuel :=
+    rank_postPart_lt q body rank hbody fuel upd c hfuelPre hfuel a (by rw [hsplit]; simp)
   obtain ⟨f, rfl⟩ : ∃ f, fuel = f + 1 := ⟨fuel - 1, by omega⟩
   simp only [closed, hsplit, List.flatMap_append, List.flatMap_cons, trace_succ,
     Nat.add_sub_cancel, List.append_assoc, List.cons_append]
@@ -224,13 +319,15 @@ example := deferred_fifo Act.queue exBody exRank exBody_wf 2 exUpd exCtx rfl (by
   [] [.userPost 9] (.deferredSend 1 5) (by decide)
 
 /-- C12.9 — `post` on an idle context: the transaction opened around the push closes at once, so the
-    closure has run when the call returns, followed by the closures of its body in phase order. -/
+    closure has run when the call returns, followed by the closures of its nested transaction in
+    phase order (`pre_eot` drained, `pre_post`, the nested transactions of its post closures). -/
 theorem post_immediate_when_idle (q : α → Queue) (body : α → List α) (rank : α → Nat)
     (hbody : ∀ a, ∀ b ∈ body a, rank b < rank a) (fuel : Nat) (c : Ctx α) (a : α)
     (hc : quiescent c) (hq : q a = .post) (hfuel : rank a ≤ fuel) :
     (transaction q body [] [a] (fuel + 2) c).log
-      = c.log ++ [a] ++ onQ q .preEot (body a) ++ onQ q .prePost (body a)
-          ++ (onQ q .post (body a)).flatMap (trace q body fuel) ∧
+      = c.log ++ [a] ++ preLog q body fuel (onQ q .preEot (body a))
+          ++ onQ q .prePost (nested q body fuel a)
+          ++ (onQ q .post (nested q body fuel a)).flatMap (trace q body fuel) ∧
     a ∈ (transaction q body [] [a] (fuel + 2) c).log ∧
     quiescent (transaction q body [] [a] (fuel + 2) c) := by
   obtain ⟨h0, h1, h2, h3, h4⟩ := hc
@@ -239,15 +336,18 @@ theorem post_immediate_when_idle (q : α → Queue) (body : α → List α) (ran
     rw [transaction]
     apply leave_closed q body rank hbody
     · rw [foldl_push]; simp [enter, h0]
-    · rfl
+    · rw [foldl_push]; intro b hb
+      simp [enter, h1, onQ_cons, hq] at hb
     · rw [foldl_push]; intro b hb
       simp [enter, h3, onQ_cons, hq] at hb
       subst hb; omega
   have hlog : (transaction q body [] [a] (fuel + 2) c).log
-      = c.log ++ [a] ++ onQ q .preEot (body a) ++ onQ q .prePost (body a)
-          ++ (onQ q .post (body a)).flatMap (trace q body fuel) := by
+      = c.log ++ [a] ++ preLog q body fuel (onQ q .preEot (body a))
+          ++ onQ q .prePost (nested q body fuel a)
+          ++ (onQ q .post (nested q body fuel a)).flatMap (trace q body fuel) := by
     rw [hcl, foldl_push]
-    simp [closed, enter, h1, h2, h3, onQ_cons, hq, trace_succ, List.append_assoc]
+    simp [closed, preEotPart, prePostPart, postPart, pushedInClose, enter, h1, h2, h3, onQ_cons, hq,
+      trace_succ, List.append_assoc]
   refine ⟨hlog, ?_, ?_⟩
   · rw [hlog]; simp
   · rw [hcl, foldl_push]; simp [quiescent, closed, enter, h4]
@@ -257,6 +357,16 @@ example := post_immediate_when_idle Act.queue exBody exRank exBody_wf 1 {} (.def
 
 example : (transaction Act.queue exBody [] [.deferredSend 1 5] 3 {}).log
     = [.deferredSend 1 5, .clearFiring 1, .commitHold 2] := by decide
+
+/-- a posted closure that builds a switch: the set-up of the switch (a `pre_eot` closure of the
+    nested transaction, which itself pushes) runs inside the nested transaction, before its
+    `pre_post` closures and before the post closure pushed by the set-up -/
+example := post_immediate_when_idle Act.queue exBodyPre exRankPre exBodyPre_wf 4 {} (.userPost 8)
+  (by decide) rfl (by decide)
+
+example : (transaction Act.queue exBodyPre [] [.userPost 8] 6 {}).log
+    = [.userPost 8, .switchInit 5, .commitHold 8, .resetVisited 5, .userPost 6]
+    ∧ quiescent (transaction Act.queue exBodyPre [] [.userPost 8] 6 {}) := by decide
 
 /-! ### obligations tying the model's constants to the current source (`Gen/Facts.lean`) -/
 
